@@ -7,7 +7,17 @@
    LIFO stacks per slot, cascading; plus the LIFO stack of entries that were already due when
    inserted).  If the oracle ever names a timer that is not due, or none while one is due,
    Server.v sets a flag that surfaces as the observation `OOracle`, so the disagreement is a
-   correspondence failure, never a silent one.  The theorems hold for every oracle.
+   correspondence failure, never a silent one.  The single-channel monitor theorems hold for every
+   oracle (the observer ignores OOracle); the chain theorems are stated modulo oracle agreement
+   (C04_chain_rounds, C04_chain_cascade's taint), which the clock range below guarantees.
+
+   What is proved ABOUT this file (TimerWheelProofs0-6.v, restated in Properties/C16.v and C04.v):
+   inside its range - every deadline below 2^36 ms since the queue's start - the wheel is a
+   correct priority queue (C16_dq_init / _insert / _poll: never early, complete, no loss or
+   duplication, least deadline first), and in every server run whose clock stays at or below
+   2^36 - 1 - MAX_TIMEOUT ms the oracle agrees with the model's due set
+   (C16_server_oracle_agrees_cfg, C04_chain_no_oracle).  Beyond the range it is not:
+   TimerWheelWitness.v (r1_early, r2_incomplete).
 
    Time unit: whole milliseconds since the queue's creation (`start`), as `N`. *)
 From Coq Require Import List Bool Arith NArith.
